@@ -51,7 +51,8 @@ def gen_register(rng, n, shuffled=True):
     pos = list(range(n))
     if shuffled:
         rng.shuffle(pos)
-    return [p * rng.uniform(6.0, 7.5) + rng.uniform(-0.2, 0.2) for p in pos]
+    a = rng.uniform(6.0, 7.5)
+    return [p * a + rng.uniform(-0.2, 0.2) for p in pos]
 
 
 def interaction(x, xy=False):
@@ -204,7 +205,9 @@ def gen_dense(rng, nmax):
     dt = rng.choice([10.0, 5.0, 4.0])
     ns = rng.randint(8, 20)
     times = [k * dt for k in range(ns + 1)]
-    x = gen_register(rng, n)
+    x = gen_register(rng, n, shuffled=False)     # register order = chain order (see dense_check)
+    relabel = list(range(n))
+    rng.shuffle(relabel)                          # second leg: atom i sits at chain position relabel[i]
     xy = rng.random() < 0.3
     U = interaction(x, xy)
     amp = [rng.uniform(2, 12) for _ in range(n)]
@@ -218,17 +221,18 @@ def gen_dense(rng, nmax):
         a = rng.randrange(n)
         masked[a, :] = 0.0
         masked[:, a] = 0.0
-    return dict(n=n, ns=ns, times=times, x=x, xy=xy, U=U, masked=masked, slm=slm, om=om, de=de, ph=ph, dt=dt)
+    return dict(n=n, ns=ns, times=times, x=x, xy=xy, U=U, masked=masked, slm=slm, om=om, de=de, ph=ph, dt=dt,
+                relabel=relabel)
 
 
 def dense_tolerance(c, precision):
     """occupation tolerance = truncation allowance + splitting allowance (both stated, see notes/stepper.md):
        4·nsteps·(N-1)·precision  — every two-site split discards weight <= precision; 2(N-1) splits per step, errors add,
                                     an observable of norm 1 moves by <= 2·|delta psi|;
-       0.1·nsteps·(w·dt·1e-3)^3  — second-order (symmetric) projector splitting, local error ~ (w dt)^3, w = max |Omega|.
+       0.02·nsteps·(w·dt·1e-3)^3 — second-order (symmetric) projector splitting, local error ~ (w dt)^3, w = max |Omega|.
        energy tolerance = occupation tolerance × an operator-norm bound of H."""
     w = max(abs(v) for r in c["om"] for v in r)
-    tol = 4 * c["ns"] * (c["n"] - 1) * precision + 0.1 * c["ns"] * (w * c["dt"] * 1e-3) ** 3
+    tol = 4 * c["ns"] * (c["n"] - 1) * precision + 0.02 * c["ns"] * (w * c["dt"] * 1e-3) ** 3
     n = c["n"]
     scale = max(sum(abs(r[j]) / 2 for j in range(n)) + sum(abs(d[j]) for j in range(n)) for r, d in zip(c["om"], c["de"]))
     scale += sum(abs(float(c["U"][i, j])) for i in range(n) for j in range(i + 1, n))
@@ -238,6 +242,7 @@ def dense_tolerance(c, precision):
 def dense_check(c, precision=1e-5):
     """returns (message|None, klass, stats)"""
     import numpy as np
+    import torch
     from pulser.backend import Occupation, Energy
     ev = [t / c["times"][-1] for t in c["times"]]
     Ufun = lambda t: (c["masked"] if t < c["slm"] else c["U"])
@@ -245,21 +250,30 @@ def dense_check(c, precision=1e-5):
     tol_o, tol_e = dense_tolerance(c, precision)
     stats = {}
     res_by = {}
-    for reorder in (False, True):
+    # Two legs of the same physics. Two-site TDVP is only accurate when strongly coupled atoms are neighbouring
+    # sites, so: leg 1 = register already in chain order, reordering OFF; leg 2 = the atoms relabelled at random
+    # (atom i at chain position relabel[i]), reordering ON (the back-end has to find the chain order itself).
+    rl = c.get("relabel") or list(range(c["n"]))
+    idx = torch.tensor(rl)
+    c2 = dict(c, U=c["U"][idx][:, idx], masked=c["masked"][idx][:, idx],
+              om=[[r[a] for a in rl] for r in c["om"]], de=[[r[a] for a in rl] for r in c["de"]],
+              ph=[[r[a] for a in rl] for r in c["ph"]])
+    for reorder, cc in ((False, c), (True, c2)):
         cfg = compat.mps_config(observables=[Occupation(evaluation_times=ev), Energy(evaluation_times=ev)],
                                 optimize_qubit_ordering=reorder, dt=c["dt"], precision=precision)
         try:
             import contextlib
             import io
             with contextlib.redirect_stdout(io.StringIO()):
-                res = compat.run_mps(make_data(c), cfg)
+                res = compat.run_mps(make_data(cc), cfg)
         except Exception as e:
             return f"run_mps raised {type(e).__name__}: {e} (reordering {reorder})", None, stats
         if [round(t, 12) for t in res.get_result_times("occupation")] != [round(t, 12) for t in ev]:
             return f"occupation recorded at {res.get_result_times('occupation')!r}, due at {ev!r}", None, stats
         occ = np.array([o.numpy() for o in res.occupation])
         en = np.array([float(e) for e in res.energy])
-        eo, ee = float(np.abs(occ - rocc).max()), float(np.abs(en - ren).max())
+        ref = rocc if not reorder else rocc[:, rl]
+        eo, ee = float(np.abs(occ - ref).max()), float(np.abs(en - ren).max())
         stats[reorder] = (eo / tol_o, ee / tol_e)
         res_by[reorder] = (eo, ee, tuple(res.atom_order))
         if tuple(res.atom_order) != tuple(f"q{i}" for i in range(c["n"])):
@@ -302,8 +316,11 @@ def check(rep: Report, tier: str, seed: int) -> None:
     rep.assumptions = [
         "two-site TDVP projector-splitting accuracy, Krylov exponential accuracy, SVD truncation error: NOT proved "
         "(DynamicsClaim is a Prop); validated against dense expm evolution with tolerance "
-        "4*nsteps*(N-1)*precision + 0.1*nsteps*(max|Omega|*dt*1e-3)^3 on occupations (x operator-norm bound of H for the energy)",
+        "4*nsteps*(N-1)*precision + 0.02*nsteps*(max|Omega|*dt*1e-3)^3 on occupations (x operator-norm bound of H for the energy)",
         "reference Hamiltonian = make_H docstring formula (sx = sigma_x/2, sy = sigma_y/2, n = |1><1|), U sampled at step mid-points",
+        "two-site TDVP is only accurate when strongly coupled atoms sit on neighbouring sites: the dense oracle's reordering-OFF leg "
+        "uses a register already in chain order, its reordering-ON leg the same physics with the atoms relabelled at random; with a "
+        "scrambled site order and reordering off the clean tree deviates by up to 1.5e-3 (6 atoms, dt=10) - not flagged, not claimed",
         "the qubit permutation itself (RCM) is taken from the run (C32's subject); the model is told perm",
         "binary64 rounding outside the theorems; the correspondence is exact (times, dt/2, query times bit for bit)",
     ]
@@ -343,9 +360,6 @@ def check(rep: Report, tier: str, seed: int) -> None:
                 lines.append(f"stepper.drive repaired {p} {kk} {rows_arg(src)}")
                 expect.append(",".join(f2b(float(v)) for v in got.real))
                 meta.append(("drive", c, (name, kk, kind), perm))
-                lines.append(f"stepper.drive asFound {p} {kk} {rows_arg(src)}")
-                expect.append(None)
-                meta.append(("drive-asFound", c, (name, kk, kind), perm))
         # interaction matrices: every make_H argument, and the matrix in force at every update_H
         for q, m in tr.make_h + [(q, m) for (_, q, m) in tr.h_mats]:
             Uq = c["masked"] if q < c["slm"] else c["U"]
@@ -363,13 +377,22 @@ def check(rep: Report, tier: str, seed: int) -> None:
     rep.extra["driver_lines"] = len(lines)
     dis = {"run": 0, "drive": 0, "inter": 0}
     d1_hits = 0
+    # which variant of the constructor does a mismatching drive row match? (second, small driver call)
+    bad_drive = [i for i, (mo, ex, m) in enumerate(zip(out, expect, meta)) if m[0] == "drive" and mo is not None and mo != ex]
+    as_found_out = {}
+    if bad_drive:
+        try:
+            res = Driver().batch([lines[i].replace("stepper.drive repaired", "stepper.drive asFound", 1) for i in bad_drive[:200]])
+            as_found_out = dict(zip(bad_drive[:200], res))
+        except LeanError as e:
+            rep.broke("driver: " + str(e)[-800:])
     for i, (mo, ex, (kind, c, info, perm)) in enumerate(zip(out, expect, meta)):
         if mo is None or ex is None:
             continue
         if mo == ex:
             continue
         if kind == "drive":
-            as_found = out[i + 1]
+            as_found = as_found_out.get(i)
             if as_found == ex:
                 d1_hits += 1
                 if d1_hits <= 2:
